@@ -164,3 +164,115 @@ class RealFloat_power_of_2(Contract):
 
     def raises(exp, s):
         return {}
+
+
+class RealFloat_from_rational(Contract):
+    target = 'fpy2.number.number.reals:RealFloat.from_rational'
+    params = {'x': 'Fraction'}
+    returns = 'RealFloat'
+    properties = ['C05']
+    note = ('Fraction.numerator/.denominator are modelled as integers n, d >= 1 with x == n/d, not both even; '
+            'dyadic <=> the (lowest-terms) denominator is a power of two')
+
+    def post(x, result):
+        r = result
+        return {
+            'wf': r._c >= 0,
+            # D(result) == x
+            'value': t_val_q(trip(r)) == x,
+            'sign': r._s == (x < 0),
+            'flags_clear': flags_clear(r),
+        }
+
+    def raises(x):
+        return {'ValueError': not is_pow2_int(x.denominator)}
+
+
+class RealFloat_as_rational(Contract):
+    target = 'fpy2.number.number.reals:RealFloat.as_rational'
+    params = {'self': 'RealFloat'}
+    returns = 'Fraction'
+    properties = ['C05']
+
+    def post(self, result):
+        return {'value': result == t_val_q(trip(self))}
+
+    def raises(self):
+        return {}
+
+
+# ---------------------------------------------------------------------------
+# digit predicates (H4)
+
+class RealFloat_is_more_significant(Contract):
+    target = 'fpy2.number.number.reals:RealFloat.is_more_significant'
+    params = {'self': 'RealFloat', 'n': 'int'}
+    returns = 'bool'
+    properties = ['C05']
+
+    def post(self, n, result):
+        # every non-zero digit lies above n  <=>  |x| is a multiple of 2^(n+1)  <=>  the low part of split(n) is zero
+        return {'iff_low_part_zero': result == on_grid(self, n)}
+
+    def raises(self, n):
+        return {}
+
+
+class RealFloat_is_integer(Contract):
+    target = 'fpy2.number.number.reals:RealFloat.is_integer'
+    params = {'self': 'RealFloat'}
+    returns = 'bool'
+    properties = ['C05']
+
+    def post(self, result):
+        return {'iff_integral': result == t_integral(trip(self))}
+
+    def raises(self):
+        return {}
+
+
+class RealFloat_bit(Contract):
+    target = 'fpy2.number.number.reals:RealFloat.bit'
+    params = {'self': 'RealFloat', 'n': 'int'}
+    returns = 'bool'
+    properties = ['C05']
+
+    def post(self, n, result):
+        # the digit of weight 2^n in |x| = c * 2^exp is digit n-exp of c (0 below exp)
+        return {
+            'below': implies(n < self._exp, result == False),
+            'digit': (result == digit(self._c, n - self._exp)) if n >= self._exp else True,
+        }
+
+    def raises(self, n):
+        return {}
+
+
+class RealFloat___int__(Contract):
+    target = 'fpy2.number.number.reals:RealFloat.__int__'
+    params = {'self': 'RealFloat'}
+    returns = 'int'
+    properties = ['C05']
+
+    def post(self, result):
+        return {
+            # exactly D(self)
+            'value': t_is_int(trip(self), result),
+            'closed_form': result == t_int_value(trip(self)),
+        }
+
+    def raises(self):
+        return {'ValueError': not t_integral(trip(self))}
+
+
+class RealFloat_is_identical_to(Contract):
+    target = 'fpy2.number.number.reals:RealFloat.is_identical_to'
+    params = {'self': 'RealFloat', 'other': 'RealFloat'}
+    returns = 'bool'
+    properties = ['C05']
+
+    def post(self, other, result):
+        return {'same_encoding': result == (self._s == other._s and self._exp == other._exp and self._c == other._c)}
+
+    def raises(self, other):
+        return {}
